@@ -319,8 +319,8 @@ class _World:
             if kind == "construct":
                 upd = dict(op[3]) if op[3] is not None else None
                 p = self.preset(op[2])
-                if upd is None:
-                    upd = {"linkify": False}
+                if upd is None and _needs_linkify_off(op[2]):
+                    upd = {"linkify": False}      # otherwise really NO options_update: the preset's own options
                 if len(op) > 4 and op[4]:
                     self.inst[j] = MarkdownIt(p, upd, renderer_cls=_tagged_renderer(op[4]))
                     self.tags[j] = op[4]
@@ -373,7 +373,7 @@ class _World:
                 o = self.user_options[int(op[2][5:])] if isinstance(op[2], str) else dict(op[2])
                 md.set(o)
             elif kind == "configure":
-                upd = dict(op[3]) if op[3] is not None else {"linkify": False}
+                upd = dict(op[3]) if op[3] is not None else ({"linkify": False} if _needs_linkify_off(op[2]) else None)
                 md.configure(self.preset(op[2]), options_update=upd)
             elif kind == "render_rule":
                 md.add_render_rule(op[2], _marker_render_rule(op[3]))
@@ -410,6 +410,11 @@ class _World:
         except (TypeError, KeyError, ValueError) as e:
             return type(e).__name__
         return "no-exception"
+
+
+def _needs_linkify_off(ref) -> bool:
+    """linkify-it-py is not installed: only the gfm-like preset switches linkify on (user presets have it off)."""
+    return isinstance(ref, str) and ref in ("gfm-like", "module:gfm_like")
 
 
 def _scribble(value, env, mode: int) -> int:
@@ -563,6 +568,8 @@ def execute(rec: dict, res: RunResult) -> None:
                 res.count("option_route_attr")
             elif kind == "construct":
                 res.count("option_route_ctor")
+                if op[3] is None and not _needs_linkify_off(op[2]):
+                    res.count("constructed_without_options_update")
                 if isinstance(op[2], str) and op[2].startswith("user:"):
                     res.count("shared_user_preset")
             elif kind == "render_rule":
@@ -687,7 +694,7 @@ class C12(Engine):
                        "render_rule_added", "definitions_parsed_in_history", "caller_mutated_returned_objects",
                        "options_object_handed_to_other_instance", "link_hook_using_an_instance_installed",
                        "raising_highlighter_installed", "user_callback_raised_in_history", "reset_rules_block_around_a_parse",
-                       "stateful_renderer_class_used"]
+                       "stateful_renderer_class_used", "constructed_without_options_update"]
 
     def budget(self, tier):
         if tier == "quick":
